@@ -157,6 +157,12 @@ def audit(pid):
     if not thms:
         res["failures"].append("no obligations listed")
         return res
+    # modules that are not part of the default library target (generated source-fact tables and the theorems over them)
+    # are built here, so that a table changed by a source edit breaks only the property that owns it
+    for m in ob.get("modules", []):
+        okm, logm = lean_build_module(m)
+        if not okm:
+            res["failures"].append("module %s does not build: %s" % (m, logm[-1200:]))
     adir = os.path.join(LEAN, ".lake", "audit")
     os.makedirs(adir, exist_ok=True)
     src = "".join("import %s\n" % m for m in ob["modules"]) + "".join("#print axioms %s\n" % t for t in thms)
